@@ -11,9 +11,14 @@ VERIF = os.environ.get('VERIF_DIR', '/verif')
 REPO = os.environ.get('VERIF_REPO', '/repo')
 GOVC = os.path.join(VERIF, 'bin', 'govc')
 
+try:
+    KF = {f['obligation'] for f in json.load(open(os.path.join(VERIF, 'known_findings.json')))['findings'] if f.get('kind') == 'finding'}
+except Exception:
+    KF = set()
+
 def base(ob):
     # obligation names may carry SSA block suffixes that move under mutation: compare without them
-    return re.sub(r'@b\d+', '', ob)
+    return re.sub(r'@[br]\d+', '', ob)   # ... and return ordinals move when a fix adds a return: a clause failing at ANY return counts
 
 def run_mutant(path):
     m = json.load(open(path))
@@ -44,7 +49,10 @@ def run_mutant(path):
                 # name is the token that contains '/'
                 for tok in parts[1:]:
                     if '/' in tok and not re.match(r'^(z3|z3-new|cvc5)/', tok) and not re.match(r'^\d+\.\d+s$', tok):
-                        status[base(tok)] = parts[0]
+                        if tok in KF and tok not in m['expect']:
+                            break   # a listed known finding fails on the unchanged tree too: it proves nothing about the mutant
+                        if status.get(base(tok), 'unsat') == 'unsat':  # several back edges share a base name: a failing one wins
+                            status[base(tok)] = parts[0]
                         break
         hit = [e for e in m['expect'] if status.get(base(e), 'missing') not in ('unsat',)]
         seen = [e for e in m['expect'] if base(e) in status]
